@@ -594,8 +594,72 @@ def hist_failures(line, out):
     return res
 
 
+def wq_failure(line, out):
+    """write-queue flusher round: every part the syncer would ship lies inside ONE segment window
+    (the data node files the whole part under the segment of its MinTimestamp); rows in = rows out"""
+    f = line.split()
+    unit, num = f[2], int(f[3])
+    rows_in = sum(len(p.split(",")) for p in f[4:])
+    if not out.startswith("rows="):
+        return "write-queue round failed: " + out[:200]
+    try:
+        head, parts_s = out.split(" parts=")
+        parts = [tuple(int(x) for x in p.split(",")) for p in parts_s.split(";")] if parts_s else []
+    except ValueError:
+        return "unparsable write-queue output: " + out[:200]
+    z = zone("UTC")
+    total = 0
+    for mn, mx, cnt in parts:
+        total += cnt
+        if ref_cell(z, unit, num, mn) != ref_cell(z, unit, num, mx):
+            a, b = ref_cell(z, unit, num, mn)
+            return ("write-queue part [min=%d, max=%d] (%d rows) spans two segment windows; the data node files all of it "
+                    "under segment [%d,%d), which does not contain %d" % (mn, mx, cnt, a, b, mx))
+    if total != rows_in:
+        return "write-queue round: %d rows in, %d rows in the resulting parts" % (rows_in, total)
+    return None
+
+
+def wq_cases(rng, n, engines=("stream", "measure")):
+    """mem parts tagged by segment window in every small shape (1+1, 1+2, 2+1, 1+1+2, ...), rows at
+    the window boundaries and inside"""
+    import itertools
+    shapes = [s for k in (1, 2, 3) for s in itertools.product((1, 2, 3), repeat=k)]
+    out = []
+    for i in range(n):
+        eng = engines[i % len(engines)]
+        shape = shapes[(i // len(engines)) % len(shapes)]
+        unit, num = rng.choice([("D", 1), ("D", 1), ("H", 1), ("H", 2), ("D", 2), ("H", 6)])
+        u = unit_ns(unit) * num
+        base = (rng.randrange(ns_of(2024, 1, 5), ns_of(2026, 12, 1)) // u) * u
+        if ref_cell(zone("UTC"), unit, num, base)[0] != base:
+            base = ref_cell(zone("UTC"), unit, num, base)[0]
+        wins = []
+        w = base
+        for k in shape:
+            wins.append((w, k))
+            w += u * rng.choice([1, 1, 1, 2, 5])
+        if len(wins) == 3 and rng.random() < 0.15:
+            wins[2] = (wins[0][0], wins[2][1])  # A, B, A again
+        parts = []
+        for w0, k in wins:
+            for _ in range(k):
+                rows = rng.randint(1, 3)
+                ts = sorted(rng.choice([w0, w0 + 1, w0 + u - 1, w0 + rng.randrange(0, u)]) for _ in range(rows))
+                parts.append(",".join(str(t) for t in ts))
+        out.append("wq.%s %s %s %d %s" % (eng, eng, unit, num, " ".join(parts)))
+    return out
+
+
 def classify(prop, line, out):
     """-> None | ("violation", msg) | ("known", id, msg)"""
+    if line.split()[0].startswith("wq"):
+        if prop != "C06":
+            return None
+        if out.startswith("PANIC") or out.startswith("CRASH"):
+            return ("violation", "write-queue round crashed: " + out[:200])
+        m = wq_failure(line, out)
+        return ("violation", m) if m else None
     if line.split()[0].startswith("std"):
         if prop != "C06":
             return None
@@ -635,6 +699,11 @@ def branch_stats(line, out, stats):
     def c(k):
         stats[k] = stats.get(k, 0) + 1
     if line.split()[0].startswith("std"):
+        return
+    if line.split()[0].startswith("wq"):
+        nin = len(line.split()) - 4
+        nout = len(out.split(" parts=")[1].split(";")) if " parts=" in out and out.split(" parts=")[1] else 0
+        c("branch:wq/%s" % ("merged" if nout < nin else "nothing-merged"))
         return
     hdr, ops = parse_hist_line(line)
     blocks = parse_hist_output(out)
